@@ -9,6 +9,7 @@ import (
 	"fmt"
 	"math"
 	"os"
+	"regexp"
 	"strconv"
 	"strings"
 	"syscall"
@@ -290,6 +291,13 @@ func vpBloomMeetsEstimate(f *bloom.BloomFilter, n uint, p float64) bool {
 }
 func vpBloomAdded(f *bloom.BloomFilter, key string) bool { return f != nil && f.TestString(key) }
 func vpBloomAddCount(f *bloom.BloomFilter) int            { return -1 }
+
+// vpRegexMatches: does pattern match text (under the executor: the uninterpreted predicate that
+// also models (*regexp.Regexp).MatchString).
+func vpRegexMatches(pattern, text string) bool {
+	re, err := regexp.Compile(pattern)
+	return err == nil && re.MatchString(text)
+}
 
 // vpSetClock pins the executor's clock model: 0 arbitrary elapsed times (default), 1 time.Since
 // reports a very long time, 2 time.Since reports zero. No effect natively.
